@@ -32,6 +32,9 @@ structure Inv (src : Nat → Nat) (len n : Nat) (s : RState) (k : Nat) (g : Ghos
   newHi : k + s.pend < g.nw + n
   ld : s.loaded = min len (g.nw + n)
   old : g.nw ≤ k + n
+  stop0 : (g.nw = g.b0 ∧ (g.sv = 1 → g.b1 ≤ g.b0)) → len < g.b0 + n → s.stop = some (len - g.b0)
+  stop1 : (g.sv = 1 ∧ g.nw = g.b1 ∧ g.b0 < g.b1) → len < g.b1 + n → s.stop = some (n + (len - g.b1))
+  stopN : g.nw + n ≤ len → s.stop = none
 
 def NulFree (src : Nat → Nat) (len : Nat) : Prop := ∀ j, j < len → src j ≠ 0
 
@@ -58,24 +61,26 @@ theorem load_out (src : Nat → Nat) (len n : Nat) (s : RState) (low i : Nat)
 @[simp] theorem load_pend (src : Nat → Nat) (len n : Nat) (s : RState) (low : Nat) : (load src len n s low).pend = s.pend := rfl
 theorem load_loaded (src : Nat → Nat) (len n : Nat) (s : RState) (low : Nat) :
     (load src len n s low).loaded = s.loaded + cnt len n s := rfl
+theorem load_stop (src : Nat → Nat) (len n : Nat) (s : RState) (low : Nat) :
+    (load src len n s low).stop = if cnt len n s < n then some (low + cnt len n s) else s.stop := rfl
 
 theorem init_inv (src : Nat → Nat) (len n : Nat) (buf0 : Nat → Nat) (hn : 0 < n) :
     Inv src len n (init src len n buf0) 0 ⟨0, 0, 0, 0⟩ := by
-  have hc : cnt len n ⟨buf0, 0, 0, 0, []⟩ = min n len := by simp [cnt]
+  have hc : cnt len n ⟨buf0, 0, 0, 0, [], none⟩ = min n len := by simp [cnt]
   refine { npos := hn, fwdlt := ?_, hw := ?_, pendle := ?_, pos0 := ?_, pos1 := ?_, dat0 := ?_, sen0 := ?_,
-           dat1 := ?_, sen1 := ?_, adj := ?_, first := ?_, nwdef := ?_, newLo := ?_, newHi := ?_, ld := ?_, old := ?_ }
+           dat1 := ?_, sen1 := ?_, adj := ?_, first := ?_, nwdef := ?_, newLo := ?_, newHi := ?_, ld := ?_, old := ?_, stop0 := ?_, stop1 := ?_, stopN := ?_ }
   · show 0 < 2 * n; omega
   · show 0 + 0 ≤ len; omega
   · show 0 ≤ n; omega
   · intro _; rfl
   · intro (h : n ≤ 0); omega
   · intro i hi (hl : 0 + i < len)
-    show (load src len n ⟨buf0, 0, 0, 0, []⟩ 0).buf i = src (0 + i)
+    show (load src len n ⟨buf0, 0, 0, 0, [], none⟩ 0).buf i = src (0 + i)
     rw [load_in _ _ _ _ _ _ (by omega) (by rw [hc]; omega)]
     simp
   · intro (_ : (0 : Nat) ≤ len) (hl : len < 0 + n)
-    show (load src len n ⟨buf0, 0, 0, 0, []⟩ 0).buf (len - 0) = 0
-    have := load_sentinel src len n ⟨buf0, 0, 0, 0, []⟩ 0 (by rw [hc]; omega)
+    show (load src len n ⟨buf0, 0, 0, 0, [], none⟩ 0).buf (len - 0) = 0
+    have := load_sentinel src len n ⟨buf0, 0, 0, 0, [], none⟩ 0 (by rw [hc]; omega)
     rw [hc] at this
     have e : len - 0 = 0 + min n len := by omega
     rw [e]; exact this
@@ -86,14 +91,21 @@ theorem init_inv (src : Nat → Nat) (len n : Nat) (buf0 : Nat → Nat) (hn : 0 
   · left; exact ⟨rfl, fun (h : (0 : Nat) = 1) => by omega⟩
   · show (0 : Nat) ≤ 0 + 0; omega
   · show 0 + 0 < 0 + n; omega
-  · show (load src len n ⟨buf0, 0, 0, 0, []⟩ 0).loaded = min len (0 + n)
+  · show (load src len n ⟨buf0, 0, 0, 0, [], none⟩ 0).loaded = min len (0 + n)
     rw [load_loaded, hc]; show 0 + min n len = _; omega
   · show (0 : Nat) ≤ 0 + n; omega
+  · intro _ (hl : len < 0 + n)
+    show (load src len n ⟨buf0, 0, 0, 0, [], none⟩ 0).stop = some (len - 0)
+    rw [load_stop, hc, if_pos (by omega)]; congr 1; omega
+  · intro (hh : (0 : Nat) = 1 ∧ _); omega
+  · intro (hl : 0 + n ≤ len)
+    show (load src len n ⟨buf0, 0, 0, 0, [], none⟩ 0).stop = none
+    rw [load_stop, hc, if_neg (by omega)]
 
 /-- the byte under `forward` is the source byte at the cursor, or the sentinel at the end -/
 theorem cur_byte {src len n s k g} (h : Inv src len n s k g) :
     (k < len → s.buf s.fwd = src k) ∧ (k = len → s.buf s.fwd = 0) := by
-  have ⟨npos, fwdlt, hw, pendle, pos0, pos1, dat0, sen0, dat1, sen1, adj, first, nwdef, newLo, newHi, ld, old⟩ := h
+  have ⟨npos, fwdlt, hw, pendle, pos0, pos1, dat0, sen0, dat1, sen1, adj, first, nwdef, newLo, newHi, ld, old, stop0, stop1, stopN⟩ := h
   by_cases hf : s.fwd < n
   · have e := pos0 hf
     constructor
@@ -116,13 +128,54 @@ theorem cur_byte {src len n s k g} (h : Inv src len n s k g) :
       have e2 : n + (len - g.b1) = s.fwd := by omega
       rw [e2] at this; exact this
 
+/-- `forward` stands on the recorded end exactly when the cursor is at the end of the source -/
+theorem at_stop {src len n s k g} (h : Inv src len n s k g) : s.stop = some s.fwd ↔ k = len := by
+  have ⟨npos, fwdlt, hw, pendle, pos0, pos1, dat0, sen0, dat1, sen1, adj, first, nwdef, newLo, newHi, ld, old, stop0, stop1, stopN⟩ := h
+  clear dat0 dat1 sen0 sen1 ld
+  by_cases hfull : g.nw + n ≤ len
+  · rw [stopN hfull]
+    constructor
+    · intro hh; cases hh
+    · intro hk; omega
+  · rcases nwdef with hA | hB
+    · have hs := stop0 hA (by omega)
+      rw [hs]
+      constructor
+      · intro hh
+        simp only [Option.some.injEq] at hh
+        have hf : s.fwd < n := by omega
+        have := pos0 hf
+        omega
+      · intro hk
+        by_cases hf : s.fwd < n
+        · have := pos0 hf
+          congr 1; omega
+        · have ⟨hsv, e⟩ := pos1 (by omega)
+          have := hA.2 hsv
+          have := adj hsv
+          omega
+    · have hs := stop1 hB (by omega)
+      rw [hs]
+      constructor
+      · intro hh
+        simp only [Option.some.injEq] at hh
+        have ⟨hsv, e⟩ := pos1 (by omega)
+        omega
+      · intro hk
+        by_cases hf : s.fwd < n
+        · have := pos0 hf
+          have := adj hB.1
+          omega
+        · have ⟨hsv, e⟩ := pos1 (by omega)
+          congr 1; omega
+
 /-- re-reading a byte that `Retract` gave back: no load, the halves stay as they are -/
 theorem step_reread {src len n s k g} (h : Inv src len n s k g) (hk : k < len) (hp : 0 < s.pend) :
     Inv src len n { s with fwd := if s.fwd + 1 = 2 * n then 0 else s.fwd + 1, pend := s.pend - 1 } (k + 1) g := by
-  have ⟨npos, fwdlt, hw, pendle, pos0, pos1, dat0, sen0, dat1, sen1, adj, first, nwdef, newLo, newHi, ld, old⟩ := h
+  have ⟨npos, fwdlt, hw, pendle, pos0, pos1, dat0, sen0, dat1, sen1, adj, first, nwdef, newLo, newHi, ld, old, stop0, stop1, stopN⟩ := h
   refine { npos := npos, fwdlt := ?_, hw := ?_, pendle := ?_, pos0 := ?_, pos1 := ?_, dat0 := dat0, sen0 := sen0,
-           dat1 := dat1, sen1 := sen1, adj := adj, first := first, nwdef := nwdef, newLo := ?_, newHi := ?_, ld := ld, old := ?_ }
-  all_goals clear dat0 dat1 sen0 sen1 ld first
+           dat1 := dat1, sen1 := sen1, adj := adj, first := first, nwdef := nwdef, newLo := ?_, newHi := ?_, ld := ld, old := ?_, stop0 := stop0, stop1 := stop1, stopN := stopN }
+  all_goals clear dat0 dat1 sen0 sen1 ld first stop0 stop1 stopN
   all_goals try dsimp only
   all_goals (try split) <;> omega
 
@@ -130,10 +183,10 @@ theorem step_reread {src len n s k g} (h : Inv src len n s k g) (hk : k < len) (
 theorem step_plain {src len n s k g} (h : Inv src len n s k g) (hk : k < len) (hp : s.pend = 0)
     (h1 : s.fwd + 1 ≠ n) (h2 : s.fwd + 1 ≠ 2 * n) :
     Inv src len n { s with fwd := s.fwd + 1 } (k + 1) g := by
-  have ⟨npos, fwdlt, hw, pendle, pos0, pos1, dat0, sen0, dat1, sen1, adj, first, nwdef, newLo, newHi, ld, old⟩ := h
+  have ⟨npos, fwdlt, hw, pendle, pos0, pos1, dat0, sen0, dat1, sen1, adj, first, nwdef, newLo, newHi, ld, old, stop0, stop1, stopN⟩ := h
   refine { npos := npos, fwdlt := ?_, hw := ?_, pendle := pendle, pos0 := ?_, pos1 := ?_, dat0 := dat0, sen0 := sen0,
-           dat1 := dat1, sen1 := sen1, adj := adj, first := first, nwdef := nwdef, newLo := ?_, newHi := ?_, ld := ld, old := ?_ }
-  all_goals clear dat0 dat1 sen0 sen1 ld first
+           dat1 := dat1, sen1 := sen1, adj := adj, first := first, nwdef := nwdef, newLo := ?_, newHi := ?_, ld := ld, old := ?_, stop0 := stop0, stop1 := stop1, stopN := stopN }
+  all_goals clear dat0 dat1 sen0 sen1 ld first stop0 stop1 stopN
   all_goals try dsimp only
   all_goals omega
 
@@ -141,14 +194,14 @@ theorem step_plain {src len n s k g} (h : Inv src len n s k g) (hk : k < len) (h
 theorem step_load_second {src len n s k g} (h : Inv src len n s k g) (hk : k < len) (hp : s.pend = 0)
     (h1 : s.fwd + 1 = n) :
     Inv src len n (load src len n { s with fwd := s.fwd + 1 } n) (k + 1) ⟨g.b0, g.b0 + n, 1, g.b0 + n⟩ := by
-  have ⟨npos, fwdlt, hw, pendle, pos0, pos1, dat0, sen0, dat1, sen1, adj, first, nwdef, newLo, newHi, ld, old⟩ := h
+  have ⟨npos, fwdlt, hw, pendle, pos0, pos1, dat0, sen0, dat1, sen1, adj, first, nwdef, newLo, newHi, ld, old, stop0, stop1, stopN⟩ := h
   have ek : k + 1 = g.b0 + n := by have := pos0 (by omega); omega
   have enw : g.nw = g.b0 := by clear dat0 dat1 sen0 sen1 ld first; omega
   have eld : s.loaded = g.b0 + n := by rw [ld, enw]; omega
   have ec : cnt len n { s with fwd := s.fwd + 1 } = min n (len - (g.b0 + n)) := by
     show min n (len - s.loaded) = _; rw [eld]
   refine { npos := npos, fwdlt := ?_, hw := ?_, pendle := ?_, pos0 := ?_, pos1 := ?_, dat0 := ?_, sen0 := ?_,
-           dat1 := ?_, sen1 := ?_, adj := ?_, first := ?_, nwdef := ?_, newLo := ?_, newHi := ?_, ld := ?_, old := ?_ }
+           dat1 := ?_, sen1 := ?_, adj := ?_, first := ?_, nwdef := ?_, newLo := ?_, newHi := ?_, ld := ?_, old := ?_, stop0 := ?_, stop1 := ?_, stopN := ?_ }
   · show s.fwd + 1 < 2 * n; omega
   · show k + 1 + s.pend ≤ len; omega
   · exact pendle
@@ -176,12 +229,20 @@ theorem step_load_second {src len n s k g} (h : Inv src len n s k g) (hk : k < l
   · show (load src len n { s with fwd := s.fwd + 1 } n).loaded = min len (g.b0 + n + n)
     rw [load_loaded, ec]; show s.loaded + _ = _; rw [eld]; omega
   · show g.b0 + n ≤ k + 1 + n; omega
+  · intro (hh : g.b0 + n = g.b0 ∧ _); omega
+  · intro _ (hl : len < g.b0 + n + n)
+    show (load src len n { s with fwd := s.fwd + 1 } n).stop = some (n + (len - (g.b0 + n)))
+    rw [load_stop, ec, if_pos (by omega)]; congr 2; omega
+  · intro (hl : g.b0 + n + n ≤ len)
+    show (load src len n { s with fwd := s.fwd + 1 } n).stop = none
+    rw [load_stop, ec, if_neg (by omega)]
+    exact stopN (by omega)
 
 /-- `forward` reaches the end of the second half: the next block goes into the first half, `forward` wraps -/
 theorem step_load_first {src len n s k g} (h : Inv src len n s k g) (hk : k < len) (hp : s.pend = 0)
     (h1 : s.fwd + 1 = 2 * n) :
     Inv src len n { load src len n s 0 with fwd := 0 } (k + 1) ⟨g.b1 + n, g.b1, 1, g.b1 + n⟩ := by
-  have ⟨npos, fwdlt, hw, pendle, pos0, pos1, dat0, sen0, dat1, sen1, adj, first, nwdef, newLo, newHi, ld, old⟩ := h
+  have ⟨npos, fwdlt, hw, pendle, pos0, pos1, dat0, sen0, dat1, sen1, adj, first, nwdef, newLo, newHi, ld, old, stop0, stop1, stopN⟩ := h
   have ⟨hsv, ek0⟩ := pos1 (by omega)
   have ek : k + 1 = g.b1 + n := by omega
   have enw : g.nw = g.b1 := by clear dat0 dat1 sen0 sen1 ld first; omega
@@ -189,7 +250,7 @@ theorem step_load_first {src len n s k g} (h : Inv src len n s k g) (hk : k < le
   have ec : cnt len n s = min n (len - (g.b1 + n)) := by
     show min n (len - s.loaded) = _; rw [eld]
   refine { npos := npos, fwdlt := ?_, hw := ?_, pendle := ?_, pos0 := ?_, pos1 := ?_, dat0 := ?_, sen0 := ?_,
-           dat1 := ?_, sen1 := ?_, adj := ?_, first := ?_, nwdef := ?_, newLo := ?_, newHi := ?_, ld := ?_, old := ?_ }
+           dat1 := ?_, sen1 := ?_, adj := ?_, first := ?_, nwdef := ?_, newLo := ?_, newHi := ?_, ld := ?_, old := ?_, stop0 := ?_, stop1 := ?_, stopN := ?_ }
   · show 0 < 2 * n; omega
   · show k + 1 + s.pend ≤ len; omega
   · exact pendle
@@ -218,19 +279,28 @@ theorem step_load_first {src len n s k g} (h : Inv src len n s k g) (hk : k < le
   · show (load src len n s 0).loaded = min len (g.b1 + n + n)
     rw [load_loaded, ec, eld]; omega
   · show g.b1 + n ≤ k + 1 + n; omega
+  · intro _ (hl : len < g.b1 + n + n)
+    show (load src len n s 0).stop = some (len - (g.b1 + n))
+    rw [load_stop, ec, if_pos (by omega)]; congr 1; omega
+  · intro (hh : (1 : Nat) = 1 ∧ g.b1 + n = g.b1 ∧ _); omega
+  · intro (hl : g.b1 + n + n ≤ len)
+    show (load src len n s 0).stop = none
+    rw [load_stop, ec, if_neg (by omega)]
+    exact stopN (by omega)
 
-/-- **`next` is the stream's `next`** (for a source without NUL bytes): below the end it returns the source byte at
-    the cursor and the invariant holds at the advanced cursor; at the end it returns EOF and changes nothing -/
-theorem next_refines {src len n s k g} (h : Inv src len n s k g) (hnf : NulFree src len) :
+/-- **`next` is the stream's `next`** (for every source, zero bytes included): below the end it returns the source byte
+    at the cursor and the invariant holds at the advanced cursor; at the end it returns EOF and changes nothing -/
+theorem next_refines {src len n s k g} (h : Inv src len n s k g) :
     (k < len → (nextCore src len n s).1 = some (src k) ∧ ∃ g', Inv src len n (nextCore src len n s).2 (k + 1) g') ∧
     (¬ k < len → nextCore src len n s = (none, s)) := by
   have hb := cur_byte h
+  have hst := at_stop h
   constructor
   · intro hk
     have e := hb.1 hk
-    have nz : src k ≠ 0 := hnf k hk
+    have hne : ¬ (src k = 0 ∧ s.stop = some s.fwd) := fun hh => by have := hst.mp hh.2; omega
     unfold nextCore
-    simp only [e, nz, if_false]
+    simp only [e, hne, if_false]
     by_cases hp : 0 < s.pend
     · simp only [hp, if_true]
       exact ⟨trivial, g, step_reread h hk hp⟩
@@ -248,30 +318,30 @@ theorem next_refines {src len n s k g} (h : Inv src len n s k g) (hnf : NulFree 
         · simp only [h2, if_false]
           exact ⟨trivial, g, step_plain h hk hp0 h1 h2⟩
   · intro hk
-    have : k = len := by have := h.hw; omega
-    have e := hb.2 this
+    have hkl : k = len := by have := h.hw; omega
+    have e := hb.2 hkl
+    have e2 := hst.mpr hkl
     unfold nextCore
-    simp [e]
+    simp [e, e2]
 
 /-- **`Retract` moves the cursor back**: giving back `size` bytes that were read (and keeping the total given back
     within one half) leaves the reader at cursor `k - size` -/
 theorem retract_refines {src len n s k g} (h : Inv src len n s k g) (size : Nat) (hs : size ≤ k)
     (hp : s.pend + size ≤ n) : Inv src len n (retract n s size) (k - size) g := by
-  have ⟨npos, fwdlt, hw, pendle, pos0, pos1, dat0, sen0, dat1, sen1, adj, first, nwdef, newLo, newHi, ld, old⟩ := h
+  have ⟨npos, fwdlt, hw, pendle, pos0, pos1, dat0, sen0, dat1, sen1, adj, first, nwdef, newLo, newHi, ld, old, stop0, stop1, stopN⟩ := h
   refine { npos := npos, fwdlt := ?_, hw := ?_, pendle := ?_, pos0 := ?_, pos1 := ?_, dat0 := dat0, sen0 := sen0,
-           dat1 := dat1, sen1 := sen1, adj := adj, first := first, nwdef := nwdef, newLo := ?_, newHi := ?_, ld := ld, old := ?_ }
-  all_goals clear dat0 dat1 sen0 sen1 ld
+           dat1 := dat1, sen1 := sen1, adj := adj, first := first, nwdef := nwdef, newLo := ?_, newHi := ?_, ld := ld, old := ?_, stop0 := stop0, stop1 := stop1, stopN := stopN }
+  all_goals clear dat0 dat1 sen0 sen1 ld stop0 stop1 stopN
   all_goals try simp only [retract]
   all_goals (try split) <;> omega
 
 /-! ### runs: any interleaving of `next`, `Retract`, `Lexeme` and `Skip` that respects the reader's contract -/
 
-theorem next_pend {src len n s k g} (h : Inv src len n s k g) (hnf : NulFree src len) (hk : k < len) :
+theorem next_pend {src len n s k g} (h : Inv src len n s k g) (hk : k < len) :
     (nextCore src len n s).2.pend = s.pend - 1 := by
-  have e := (cur_byte h).1 hk
-  have nz : src k ≠ 0 := hnf k hk
+  have hne : ¬ (s.buf s.fwd = 0 ∧ s.stop = some s.fwd) := fun hh => by have := (at_stop h).mp hh.2; omega
   unfold nextCore
-  simp only [e, nz, if_false]
+  simp only [hne, if_false]
   by_cases hp : 0 < s.pend
   · simp [hp]
   · simp only [hp, if_false]
@@ -303,7 +373,7 @@ theorem slice_self (src : Nat → Nat) (k : Nat) : slice src k k = [] := by simp
 
 theorem inv_pending {src len n s k g} (h : Inv src len n s k g) (x : List Nat) : Inv src len n { s with pending := x } k g :=
   ⟨h.npos, h.fwdlt, h.hw, h.pendle, h.pos0, h.pos1, h.dat0, h.sen0, h.dat1, h.sen1, h.adj, h.first, h.nwdef, h.newLo,
-   h.newHi, h.ld, h.old⟩
+   h.newHi, h.ld, h.old, h.stop0, h.stop1, h.stopN⟩
 
 /-- the reader at stream state `a` -/
 structure Inv2 (src : Nat → Nat) (len n : Nat) (s : RState) (a : AState) (g : Ghost) : Prop where
@@ -316,7 +386,7 @@ theorem init_inv2 (src : Nat → Nat) (len n : Nat) (buf0 : Nat → Nat) (hn : 0
     Inv2 src len n (init src len n buf0) ⟨0, 0, 0⟩ ⟨0, 0, 0, 0⟩ :=
   ⟨init_inv src len n buf0 hn, rfl, Nat.le_refl _, by simp [init, load, slice]⟩
 
-theorem step_refines {src len n} (hnf : NulFree src len) {s : RState} {a : AState} {g : Ghost}
+theorem step_refines {src len n} {s : RState} {a : AState} {g : Ghost}
     (h : Inv2 src len n s a g) (op : Op) {o : Out} {a' : AState} (hs : aStep src len n a op = some (o, a')) :
     (cStep src len n s op).1 = o ∧ ∃ g', Inv2 src len n (cStep src len n s op).2 a' g' := by
   obtain ⟨inv, pend, kble, hpending⟩ := h
@@ -326,8 +396,8 @@ theorem step_refines {src len n} (hnf : NulFree src len) {s : RState} {a : AStat
     by_cases hk : a.k < len
     · simp only [hk, if_true, Option.some.injEq, Prod.mk.injEq] at hs
       obtain ⟨ho, ha⟩ := hs
-      obtain ⟨e1, g', hinv'⟩ := (next_refines inv hnf).1 hk
-      have hp := next_pend inv hnf hk
+      obtain ⟨e1, g', hinv'⟩ := (next_refines inv).1 hk
+      have hp := next_pend inv hk
       subst ha
       generalize hr : nextCore src len n s = r at e1 hinv' hp
       obtain ⟨r1, r2⟩ := r
@@ -342,7 +412,7 @@ theorem step_refines {src len n} (hnf : NulFree src len) {s : RState} {a : AStat
         rw [hpending, slice_succ src kble]
     · simp only [hk, if_false, Option.some.injEq, Prod.mk.injEq] at hs
       obtain ⟨ho, ha⟩ := hs
-      have e := (next_refines inv hnf).2 hk
+      have e := (next_refines inv).2 hk
       subst ha
       refine ⟨by simp only [cStep, next, e]; exact ho, g, ?_⟩
       simp only [cStep, next, e]
@@ -378,7 +448,7 @@ theorem step_refines {src len n} (hnf : NulFree src len) {s : RState} {a : AStat
 /-- **Refinement for runs**: whatever sequence of `next`/`Retract`/`Lexeme`/`Skip` calls the lexer makes within the
     contract, the two-half reader returns exactly what the plain stream returns — for every source length, every
     half size and every alignment of the blocks; a lexeme may be longer than the buffer. -/
-theorem run_refines {src len n} (hnf : NulFree src len) :
+theorem run_refines {src len n} :
     ∀ (ops : List Op) (s : RState) (a : AState) (g : Ghost) (outs : List Out),
       Inv2 src len n s a g → aRun src len n a ops = some outs → cRun src len n s ops = outs := by
   intro ops
@@ -396,14 +466,14 @@ theorem run_refines {src len n} (hnf : NulFree src len) :
       | none => simp [hrec] at h
       | some outs' =>
         simp only [hrec, Option.map_some, Option.some.injEq] at h
-        obtain ⟨e1, g', hinv'⟩ := step_refines hnf hinv op hst
+        obtain ⟨e1, g', hinv'⟩ := step_refines hinv op hst
         have := ih _ a' g' outs' hinv' hrec
         simp only [cRun, e1, this, h]
 
 /-- from a fresh reader -/
-theorem reader_is_stream {src len n} (hnf : NulFree src len) (hn : 0 < n) (buf0 : Nat → Nat) (ops : List Op)
+theorem reader_is_stream {src len n} (hn : 0 < n) (buf0 : Nat → Nat) (ops : List Op)
     (outs : List Out) (h : aRun src len n ⟨0, 0, 0⟩ ops = some outs) :
     cRun src len n (init src len n buf0) ops = outs :=
-  run_refines hnf ops _ _ _ outs (init_inv2 src len n buf0 hn) h
+  run_refines ops _ _ _ outs (init_inv2 src len n buf0 hn) h
 
 end Emerge.Reader
